@@ -156,6 +156,17 @@ def _x4(ctx, rep):
             rep.undecided("X4", m, call, "ps `%s` is not a row-major flatten of an array" % unparse(ps))
             continue
         arr_t = unparse(arr)
+        # an un-targeted squeeze drops EVERY axis of length 1 - also the axis of a retained variable that happens to have one value
+        def untargeted(x):
+            if not (isinstance(x, ast.Call) and (dotted(x.func) or "").split(".")[-1] == "squeeze") or kwarg(x, "axis") is not None:
+                return False
+            module_form = (dotted(x.func) or "") in ("np.squeeze", "numpy.squeeze")
+            return len(x.args) == (1 if module_form else 0)
+        sq = [x for e0 in chain(arr) for x in ast.walk(e0) if untargeted(x)]
+        if sq:
+            rep.violation("X4", m, call, "`%s` removes every axis of length 1: a retained variable with a single value loses its axis, so the result has "
+                                         "fewer variables than were retained (pass axis= with exactly the conditioned / removed axes)" % unparse(sq[0]), node=sq[0])
+            continue
         sh_chain = chain(sh)
         texts = [unparse(e).replace(" ", "") for e in sh_chain]
         if any(t in ("%s.shape" % arr_t, "tuple(%s.shape)" % arr_t, "list(%s.shape)" % arr_t) for t in texts):
